@@ -104,6 +104,9 @@ class Filter(collections.namedtuple('Filter', ['property', 'op', 'value'])):
                 stix2.utils.parse_into_datetime(v) if isinstance(v, str) else v
                 for v in self.value
             )
+        elif isinstance(self.value, datetime):
+            # a naive datetime means UTC, as everywhere else in the library
+            filter_value = stix2.utils.parse_into_datetime(self.value)
         else:
             filter_value = self.value
 
